@@ -288,6 +288,9 @@ func initDirs(thorough bool) (small, big []initDir) {
 		{"live-empty", map[string]string{"audit.log": ""}},
 		{"live+fragment+2-rotated", map[string]string{"audit.log": "l0-a\nl0-b\nl0-frag", "audit.log.1": "l1-a\n", "audit.log.2": "l2-a\nl2-b\n"}},
 	}
+	// rotated files that end in the middle of a record (auditd was killed, the disk was full): what follows their
+	// last newline was never terminated and never will be
+	small = append(small, initDir{"rotated-files-with-unterminated-tails", map[string]string{"audit.log": "l0-a\n", "audit.log.1": "l1-a\nl1-cut", "audit.log.2": "l2-a\nl2-b\ntype=SYSCALL msg=audit(1.2:3): cut sho"}})
 	if thorough {
 		small = append(small, initDir{"no-live-file-yet", map[string]string{"audit.log.1": "l1-a\n", "audit.log": ""}})
 	}
